@@ -225,6 +225,27 @@ def gen_hostile_case(rng, max_len=120):
     return ops
 
 
+def gen_hole_masked_case(rng):
+    """hostile: one piece of the partition is missing and an overlapping fragment of the same length hides the hole in
+    the byte count -> is_complete() holds, the contiguity re-check of allocate_pdu must refuse (`corrupt` path)"""
+    while True:
+        used = set()
+        d = new_dgram(rng, "d0", used, 160, 6, proto=rng.choice(RAW_PROTOS))
+        if len(d.pieces) < 3:
+            continue
+        i = rng.randrange(1, len(d.pieces) - 1)
+        hosts = [k for k, (o, l) in enumerate(d.pieces) if k != i and l >= 16]
+        if hosts:
+            break
+    ko, kl = d.pieces[rng.choice(hosts)]
+    fake = (ko + 8 * rng.randint(1, kl // 8 - 1), d.pieces[i][1])
+    frs = [(p, None) for k, p in enumerate(d.pieces) if k != i] + [(fake, True)]
+    rng.shuffle(frs)
+    ops = ["case", d.op()] + [d.frag(p, rng.randrange(256), rng.random() < 0.5, mf) for p, mf in frs]
+    ops.append(d.frag(d.pieces[i], 64, False))          # the missing piece, too late: starts a new stream
+    return ops
+
+
 def kf_witness_case():
     """the Lean refutation witness `Tins.Props.C08.kfEvs` (key_reuse_refines_fails), replayed on the real code"""
     old = Dg("d0", 7, 1, 2, 253, 0, False, 0, bytes(range(16)), [8, 8])
@@ -352,6 +373,7 @@ def run(chk):
     go([gen_valid_case(rng, max_len=3000, max_pieces=40, max_dg=3) for _ in range(40 if quick else 600)])
     go([gen_valid_case(rng, max_len=65515, max_pieces=60, max_dg=2) for _ in range(3 if quick else 60)])
     # 4. hostile histories (model/implementation correspondence)
+    go([gen_hole_masked_case(rng) for _ in range(300 if quick else 5000)])
     n_host = 3000 if quick else 80000
     for i in range(0, n_host, 20000):
         go([gen_hostile_case(rng) for _ in range(min(20000, n_host - i))])
